@@ -359,6 +359,18 @@ func streamCancel(o *Out, r *rand.Rand, n int, thorough bool) {
 		"each5(func(a) {\nfor {\n}\n}, 1, 2, 3, 4)", "lit5(1, 2, 3, 4, 5)", "litv(1)", "func() {\ndefer libv(1)\n}()", "x = [lib5(1, 2, 3, 4, 5)]"} {
 		runs = append(runs, wcr{wc{"library-function", call + "\nprobe(\"after\")"}, 30, false, libPrelude})
 	}
+	// a goroutine of the script has ENDED WITH AN ERROR before the cancellation, the script is still waiting for it or spinning:
+	// the cancelled call reports the interruption, not the goroutine's old error
+	for _, src := range []string{
+		"results = make(chan int64)\ngo func() {\nthrow \"worker failed\"\n}()\n<-results",
+		"go func() {\nx = [1][5]\n}()\nfor {\n}",
+		"func w(a, b, c, d, e) {\nthrow \"w failed\"\n}\ngo w(1, 2, 3, 4, 5)\nc = make(chan int64)\n<-c",
+		"func wv(xs...) {\nthrow \"wv failed\"\n}\ngo wv(1)\nfor {\nprobe(1)\n}",
+		"go boom()\nc = make(chan int64)\nfor x in c {\n}",
+		"done = make(chan bool, 1)\ngo func() {\ndefer func() { done <- true }()\nthrow \"worker failed\"\n}()\n<-done\nfor {\n}",
+	} {
+		runs = append(runs, wcr{wc{"dead-worker", src}, 40, false, ""})
+	}
 	for i := 0; i < reps; i++ {
 		for _, c := range raceCores {
 			runs = append(runs, wcr{wc{c.name, c.src}, 1 + i%4, true, ""})
